@@ -266,6 +266,19 @@ func runUC[V any](c ucCase, ue ucElem[V]) (res core.Result) {
 			col.Sequential[col.AssociationLike[int64, V]]
 		}
 		var got, want assocView
+		if c.Form == "source" {
+			lib.Call(func() {
+				var earlier assocView
+				if c.Kind == "Catalog" {
+					earlier = mod.Catalog[int64, V](args...)
+				} else {
+					earlier = mod.Map[int64, V](args...)
+				}
+				for _, a := range earlier.AsArray() {
+					scribble(any(a.GetValue()))
+				}
+			})
+		}
 		p, payload := lib.Call(func() {
 			if c.Kind == "Catalog" {
 				got = mod.Catalog[int64, V](args...)
@@ -395,6 +408,28 @@ func runUC[V any](c ucCase, ue ucElem[V]) (res core.Result) {
 	args = withNotation(c.Notation, args...)
 	var got col.Sequential[V]
 	var gotCap, wantCap uint
+	if c.Form == "source" {
+		// an earlier caller built a collection from the same source and changed, in place, the collections nested
+		// in what it got: they were its own
+		lib.Call(func() {
+			var earlier col.Sequential[V]
+			switch c.Kind {
+			case "Array":
+				earlier = mod.Array[V](args...)
+			case "List":
+				earlier = mod.List[V](args...)
+			case "Set":
+				earlier = mod.Set[V](args...)
+			case "Stack":
+				earlier = mod.Stack[V](args...)
+			case "Queue":
+				earlier = mod.Queue[V](args...)
+			}
+			for _, e := range earlier.AsArray() {
+				scribble(any(e))
+			}
+		})
+	}
 	p, payload := lib.Call(func() {
 		switch c.Kind {
 		case "Array":
